@@ -24,7 +24,9 @@ pub fn legalise(b: &mut MBoard) {
 }
 
 pub fn random_moveno(rng: &mut Rng) -> u64 {
-    match rng.below(10) {
+    match rng.below(12) {
+        10 => (1u64 << 32) - 3 + rng.below(6) as u64,
+        11 => [(1u64 << 16) - 2, (1 << 31) - 2, (1 << 40) + 7, (1 << 53) + 1, (1 << 62) + 5, 1023, 65_535, 255][rng.below(8)] + rng.below(3) as u64,
         0 => 1,
         1 => 2,
         2 => 1_000_000 + rng.below(1000) as u64,
